@@ -72,8 +72,9 @@ class NoiseScript:
         return v
 
 
-def run_history(inp):
-    """Run the real Simulator on the history `inp`; returns the recorded ops and observables."""
+def run_history(inp, extra=None):
+    """Run the real Simulator on the history `inp`; returns the recorded ops and observables.
+    `extra(sim, station_ids, sess_num)` (optional) is evaluated on the finished simulator (used by C18)."""
     import numpy as np
     from datetime import datetime
     from acnportal import acnsim
@@ -125,6 +126,10 @@ def run_history(inp):
     net = RecNet()
     for sid, st in zip(station_ids, inp["stations"]):
         net.register_evse(make_evse(sid, tuple(st["kind"])), st["voltage"], st.get("phase", 0))
+
+    for c in inp.get("constraints", []):
+        from acnportal.acnsim.network.current import Current
+        net.add_constraint(Current({station_ids[int(k)]: v for k, v in c["coefs"].items()}), c["limit"], name=c["name"])
 
     evs = []
     ev_batt_kind = {}
@@ -201,6 +206,8 @@ def run_history(inp):
                 out["agg_power"] = [float(x) for x in acnsim.analysis.aggregate_power(sim)[:it]]
             else:
                 out["total"], out["agg_current"], out["agg_power"] = 0.0, [], []
+            if extra is not None and err is None:
+                out["extra"] = extra(sim, station_ids, sess_num)
     finally:
         battery_mod.np.random.normal = old_normal
     return out
